@@ -442,6 +442,51 @@ def unit_schedules_sampled(a):
     return stats
 
 
+# ------------------------------------------------------------------ free-running threads (pre-emptive switching, separate instances)
+def check_threads(case, stats):
+    """several threads, each with its own Parser/matcher/Compiler, parse and compile at full speed with a tiny switch interval;
+    every result must equal the solo result (a module-level scratch buffer or cache shared between instances shows here).
+    Detection is probabilistic; a pass proves nothing, a failure is a real difference."""
+    texts = case["texts"]
+    solo = [gh.parse_and_compile(t) for t in texts]
+    old = sys.getswitchinterval()
+    errors = []
+
+    def work(k):
+        try:
+            for rep in range(case["reps"]):
+                for i, t in enumerate(texts):
+                    j = (i + k) % len(texts)
+                    r = gh.parse_and_compile(texts[j])
+                    if r != solo[j]:
+                        errors.append((k, j, diff_text(r, solo[j], "in a thread", "alone")))
+                        return
+        except BaseException as e:  # noqa
+            errors.append((k, -1, repr(e)))
+    sys.setswitchinterval(1e-6)
+    try:
+        threads = [threading.Thread(target=work, args=(k,), daemon=True) for k in range(case["threads"])]
+        for t in threads:
+            t.start()
+        for t in threads:
+            t.join(300)
+    finally:
+        sys.setswitchinterval(old)
+    stats.case(("threads", case["threads"], case["reps"]), True, sample={"threads": case["threads"], "documents": len(texts), "reps": case["reps"]})
+    if errors:
+        k, j, d = errors[0]
+        raise Violation(case, "thread %d parsing document #%d concurrently with other threads (separate instances) got another result than alone: %s" % (k, j, d))
+
+
+def unit_threads(a):
+    stats = Stats()
+    texts = [POOL["outline"], POOL["doc_q"], POOL["doc_b"], POOL["fr_hdr"], POOL["pirate_hdr_doc"], POOL["ragged"], POOL["cap"],
+             "Feature: t\n Scenario: s\n  Given x\n" + "".join("   | c%d | \\| %d | é |\n" % (i, i) for i in range(12)),
+             "@a @b\nFeature: t\n @c\n Scenario Outline: o <x>\n  Given <x>\n   | <x> | v |\n @e @f\n Examples:\n   | x |\n" + "".join("   | %d |\n" % i for i in range(8))]
+    sweep(stats, [{"sub": "threads", "texts": texts, "threads": 4, "reps": a["reps"]}], check_threads)
+    return stats
+
+
 # ------------------------------------------------------------------ determinism across processes / hash seeds
 DIGEST_SCRIPT = r"""
 import sys, json, hashlib
@@ -520,7 +565,7 @@ def unit_determinism(a):
 
 
 def replay(case, stats):
-    return {"history": check_history, "stream-history": check_stream_history, "reset": check_reset, "schedule": check_schedule, "determinism": check_determinism, "twice": check_twice}[case["sub"]](case, stats)
+    return {"history": check_history, "stream-history": check_stream_history, "reset": check_reset, "schedule": check_schedule, "determinism": check_determinism, "twice": check_twice, "threads": check_threads}[case["sub"]](case, stats)
 
 
 def run(ctx):
@@ -532,6 +577,7 @@ def run(ctx):
     ctx.units("shared-keyword-dialect-pairs", unit_shared_keywords, [{"shard": i, "nshards": ns} for i in range(ns)], procs=ns)
     ctx.units("sampled-histories", unit_sampled, [{"n": 180 if q else 2000, "seed": ctx.seed, "shard": i} for i in range(8 if q else 16)], procs=16)
     ctx.units("matcher-reset", unit_reset, [{"n": 1500 if q else 8000, "seed": ctx.seed, "shard": i} for i in range(8 if q else 16)], procs=16)
+    ctx.units("free-running-threads", unit_threads, [{"reps": 40 if q else 400}])
     ctx.units("interleavings-exhaustive", unit_schedules, [{"maxreads": 5 if q else 7, "shard": i, "nshards": ns} for i in range(ns)], procs=ns)
     ctx.units("interleavings-sampled", unit_schedules_sampled, [{"n": 90 if q else 800, "seed": ctx.seed, "shard": i} for i in range(8 if q else 16)], procs=16)
     ctx.exhaustive = False
